@@ -41,6 +41,9 @@ func (e *Exec) VerifyLemma(l *Lemma, ctxPkg *types.Package) (err error) {
 		sym := e.Out.Fresh("lv$"+v.Name, s)
 		if ty != nil {
 			e.Out.Assert(e.rangeFact(sym, ty, st))
+			if arr, ok := ty.Underlying().(*types.Array); ok && s == ArrSort(SInt, SInt) {
+				e.Out.Assert("(arrnorm " + sym + " " + IntLit(arr.Len()) + ")") // a variable of array type holds an array value
+			}
 		}
 		env.vars[v.Name] = Val{T: sym, S: s, Ty: ty}
 	}
@@ -55,6 +58,16 @@ func (e *Exec) VerifyLemma(l *Lemma, ctxPkg *types.Package) (err error) {
 			e.Out.Assert(t)
 		case "call":
 			e.lemmaCall(step, env)
+		case "havoc":
+			// havoc <ghost>: the ghost variable takes an arbitrary value (e.g. "a second instance with another store")
+			g, ok := e.P.Spec.Ghosts[strings.TrimSpace(step.Text)]
+			if !ok {
+				e.unsupported("%s: havoc of unknown ghost %q", step.C.Src, step.Text)
+			}
+			_, comps, _, _ := e.ghostComps(g)
+			for _, c := range comps {
+				e.havoc(env.st, c.name, c.sort)
+			}
 		case "mark":
 			// old() refers to the state at the most recent mark
 			env.old = env.st.clone()
